@@ -242,6 +242,10 @@ func leafEffectsEnv(blk *ssa.BasicBlock, idx int, loopHead *ssa.BasicBlock, env0
 				eff = append(eff, "call "+shortCallee(x))
 			case *ssa.If:
 				eff = append(eff, "branch")
+				// look ahead: does the region below this branch append to the lexer's tag list?
+				if appendsTagsBelow(blk, loopHead) {
+					eff = append(eff, "appends l.tags")
+				}
 				return strings.Join(eff, "; ")
 			case *ssa.MapUpdate:
 				eff = append(eff, "mapupdate")
@@ -339,4 +343,30 @@ func byteSetString(bs []int) string {
 		i = j + 1
 	}
 	return strings.Join(parts, ",")
+}
+
+// appendsTagsBelow: some block reachable from b (without passing the decision loop's head) stores
+// append(l.tags, ...) into the lexer's tags field.
+func appendsTagsBelow(b, loopHead *ssa.BasicBlock) bool {
+	seen := map[*ssa.BasicBlock]bool{}
+	stack := []*ssa.BasicBlock{b}
+	for len(stack) > 0 {
+		x := stack[len(stack)-1]
+		stack = stack[:len(stack)-1]
+		if seen[x] || (x == loopHead && x != b) {
+			continue
+		}
+		seen[x] = true
+		for _, in := range x.Instrs {
+			if st, ok := in.(*ssa.Store); ok {
+				if t, f, _, ok := fieldRef(st.Addr); ok && t == "Lexer" && f == "tags" {
+					if cl, ok := st.Val.(*ssa.Call); ok && isCall(cl, "builtin append") {
+						return true
+					}
+				}
+			}
+		}
+		stack = append(stack, x.Succs...)
+	}
+	return false
 }
